@@ -66,16 +66,26 @@ def run_graph(pid, tier, plan, replay=None):
             for (mod, cfg, to) in plan.get("design", []):
                 d = tlc_design(scratch, mod, cfg, timeout=to)
                 design.append(d)
-            for mod in plan.get("proofs", []):
-                design.append(tlaps_design(scratch, mod))
                 tlc_states += d["distinct"]
                 tlc_trans += d["generated"]
+            for mod in plan.get("proofs", []):
+                design.append(tlaps_design(scratch, mod))
             if plan.get("export"):
                 n, depth = plan["export"]
                 dest = scratch.path("export.ndjson")
                 ns, gen = export_scripts(scratch, n, depth, dest)
                 tlc_trans += gen
                 files.append(("tlc-export", dest))
+            if plan.get("universe"):
+                # the complete merge universe of GraphLaws, written out by TLC; the harness forms ordered pairs of it
+                cfg, npairs = plan["universe"]
+                udest = scratch.path("universe.json")
+                out, rc, g1, g2 = tlc(scratch, "MC_GraphLaws", cfg, env={"VH_EXPORT": udest}, workers=1, timeout=900)
+                if not os.path.exists(udest):
+                    raise Infra("TLC did not export the universe:\n" + out[-2000:])
+                dest = scratch.path("pairs.ndjson")
+                run([vh, "graph-gen", "--mode", "allpairs", "--universe", udest, "--n", str(npairs), "--out", dest, "--seed", str(seed())])
+                files.append(("tlc-universe-pairs:%s" % ("all" if npairs == 0 else npairs), dest))
             for i, g in enumerate(plan.get("gens", [])):
                 dest = scratch.path("gen%d.ndjson" % i)
                 run([vh, "graph-gen", "--out", dest, "--seed", str(seed() * 1000 + i)] + g["args"])
